@@ -8,5 +8,6 @@ N=$(python3 -c "import json;print(len(json.load(open('cases.json'))['cases']))")
 sed "s/CaseHi = 1/CaseHi = $N/" /verif/spec/MC_Seq.cfg > MC_Seq.cfg
 ( time timeout 1800 tlc -workers 12 -metadir states -cleanup -noGenerateSpecTE -config MC_Seq.cfg MC_Seq.tla > tlc.out 2>&1 ) 2>&1 | grep real
 grep -E 'states generated|Finished|rror|violated' tlc.out | tail -4
+(cd /verif/harness && cargo build --offline --bins 2>&1 | grep -E "^error" -A8 || true)
 python3 /verif/tools/tlcout.py tlc.out beh.ndjson cases.json
 /verif/harness/target/debug/rxreplay --cases cases.json --in beh.ndjson --out summary.json --mismatch mism.ndjson --observed obs.ndjson | tail -1
